@@ -152,7 +152,7 @@ _TERMINALS = ["log_integral", "evaluate_ln", "integrate_x", "integrate_xx", "int
               "integrate_cubic_inner", "integrate_cubic_outer", "integrate_xAxx", "integrate_xbxx", "integrate_quartic_inner",
               "integrate_quartic_outer", "log_factor", "entropy_kl"]
 _PIPES = ["joint_eval", "marginal_eval", "bayes_posterior", "set_y_evidence", "cond_entropies", "log_conditional",
-          "condition_on_dims", "kalman_scan", "lrbf_marginal", "lsem_log_conditional_y", "truncated", "nn_control"] + \
+          "condition_on_dims", "kalman_scan", "lrbf_marginal", "lsem_log_conditional_y", "truncated", "nn_control", "update_in_program"] + \
          [f"{p_}:{l_}" for p_ in ("het_moments", "het_bound") for l_ in ("exp", "cosh", "heaviside", "relu")]
 
 
